@@ -714,8 +714,9 @@ impl<'c, 'a, 'w> PGen<'c, 'a, 'w> {
             if !self.budget_left() {
                 break;
             }
-            match self.ch.weighted(&[40, 15, 20, 10, 5, 10, if d > 0 { 18 } else { 0 }]) {
+            match self.ch.weighted(&[40, 15, 20, 10, 5, 10, if d > 0 { 18 } else { 0 }, if self.opts.allow.pointer_heavy { 14 } else { 3 }]) {
                 6 => self.prefix_switch(out),
+                7 => self.reassigned_object_local(out),
                 0 => {
                     // let / const with initialiser (annotation optional)
                     let ty = self.value_type_for_local();
@@ -816,6 +817,34 @@ impl<'c, 'a, 'w> PGen<'c, 'a, 'w> {
 
     fn param_count(&self) -> usize {
         0
+    }
+
+    /// `let o = <object>; let v = o.p; o = <other object>; let w = o.p;` in one basic block: the
+    /// same property is read through the same local before and after the local is re-assigned.
+    fn reassigned_object_local(&mut self, out: &mut Vec<S>) {
+        let Some(first) = self.src_ptr(2) else { return };
+        let first = self.exactly_vsrc(first);
+        let Some(second) = self.src_ptr(2) else { return };
+        let second = self.exactly_vsrc(second);
+        if matches!(strip_parens(&first), E::Ternary(..)) || matches!(strip_parens(&second), E::Ternary(..)) {
+            return; // a ternary starts new basic blocks
+        }
+        self.ch.label("object-local-reassigned-between-reads");
+        let cands: Vec<(&'static str, T)> = vec![("i0", T::Int), ("i1", T::Int), ("s0", T::Str), ("s1", T::Str), ("b0", T::Bool), ("b1", T::Bool), ("d0", T::Double), ("d1", T::Double), ("ov", T::Int)];
+        let pref: Vec<(&'static str, T)> = cands.iter().filter(|(_, t)| Some(t) == self.tail_ty.as_ref()).cloned().collect();
+        let (prop, ty) = if !pref.is_empty() && self.ch.chance(3, 4) { self.ch.pick(&pref).clone() } else { self.ch.pick(&cands).clone() };
+        let o = self.new_local(T::Ptr("VSrc"), None);
+        out.push(S::Decl(o, false, true, Some(first)));
+        let v = self.new_local(ty.clone(), None);
+        out.push(S::Decl(v, false, false, Some(E::Prop(Box::new(E::Local(o)), prop, ty.clone()))));
+        out.push(S::Expr(E::AssignLocal(o, Box::new(second))));
+        let w = self.new_local(ty.clone(), None);
+        out.push(S::Decl(w, false, false, Some(E::Prop(Box::new(E::Local(o)), prop, ty.clone()))));
+        for i in [o, v, w] {
+            self.scope.push(i);
+            self.assigned.insert(i);
+        }
+        self.must_use = Some(w);
     }
 
     /// A switch in statement position whose bodies only reassign visible locals; the first body
@@ -1319,7 +1348,11 @@ pub fn gen_binding(ch: &mut Chooser, world: &World, this: usize, t: &T, target_p
         g.ch.label("statement-body");
         Body::Block(g.tail(t, sd))
     };
-    Program { ty: t.clone(), body, locals: g.locals, params: 0 }
+    let mut p = Program { ty: t.clone(), body, locals: g.locals, params: 0 };
+    if avoid_nonfinite_constants(&mut p) > 0 {
+        ch.label("non-finite-constant-replaced");
+    }
+    p
 }
 
 /// A handler body with `params` (name, type) hosted by object `this`.
@@ -1341,5 +1374,9 @@ pub fn gen_handler(ch: &mut Chooser, world: &World, this: usize, params: &[(&str
     } else {
         Body::Block(g.handler_stmts(sd.min(2)))
     };
-    Program { ty: T::Void, body, locals: g.locals, params: np }
+    let mut p = Program { ty: T::Void, body, locals: g.locals, params: np };
+    if avoid_nonfinite_constants(&mut p) > 0 {
+        ch.label("non-finite-constant-replaced");
+    }
+    p
 }
